@@ -7,11 +7,17 @@ open Monero
 * `c15_parse_denom <u|s> <hex utf8>`          → `ok <int>` | `err`   (`from_str_with_denomination` = `FromStr`)
 * `c15_fmt <u|s> <Denom> <int>`               → hex of `to_string_in`
 * `c15_fmt_denom <u|s> <Denom> <int>`         → hex of `to_string_with_denomination`
+* `c15_display <u|s> <int>`                   → hex of `format!("{}", a)` (`Display`; model `AmtText.display`, spec: 12 decimals + ` xmr`)
+* `c15_denom <hex utf8>`                      → `<Denom>` | `err`    (`Denomination::from_str`; model: generated table, spec: `denomOfName`)
+* `c15_fmt_after_fail <u|s> <Denom> <c|b><k> <int1> <int2>` → the three formatted forms of `int2` after `int1` was formatted into a failing sink
+* `c15_parse_after_fail <u|s> <Denom> <hex bad> <hex good>` → `from_str_in` of `good` after `bad` was parsed (result ignored)
 The spec side never touches the model or the generated tables. -/
 namespace Drv
 def denomOfStr : String → Option Denom
   | "Monero" => some .Monero | "Millinero" => some .Millinero | "Micronero" => some .Micronero
   | "Nanonero" => some .Nanonero | "Piconero" => some .Piconero | _ => none
+def showDenom : Denom → String
+  | .Monero => "Monero" | .Millinero => "Millinero" | .Micronero => "Micronero" | .Nanonero => "Nanonero" | .Piconero => "Piconero"
 def signedOfStr : String → Option Bool | "u" => some false | "s" => some true | _ => none
 def showExI : Except AmtText.PErr Int → String | .ok v => s!"ok {v}" | .error _ => "err"
 def showOptI : Option Int → String | some v => s!"ok {v}" | none => "err"
@@ -32,6 +38,22 @@ def stepC15 : Step := fun toks =>
   | ["c15_fmt_denom", ty, d, a] => do
     let signed ← signedOfStr ty; let d ← denomOfStr d; let a ← a.toInt?
     pure (Hex.encode (AmtText.toStringWithDenomination signed a d), Hex.encode (Spec.Decimal.specFormatWithDenomination d a))
+  | ["c15_fmt_after_fail", ty, d, _mode, _a1, a2] => do
+    -- the model is a function of its arguments: what was formatted before (into a failing sink) cannot matter
+    let signed ← signedOfStr ty; let d ← denomOfStr d; let a ← a2.toInt?
+    pure (s!"{Hex.encode (AmtText.toStringIn signed a d)} {Hex.encode (AmtText.toStringWithDenomination signed a d)} {Hex.encode (AmtText.display signed a)}",
+          s!"{Hex.encode (Spec.Decimal.specFormat (Spec.Decimal.decimals d) a)} {Hex.encode (Spec.Decimal.specFormatWithDenomination d a)} {Hex.encode (Spec.Decimal.specFormatWithDenomination .Monero a)}")
+  | ["c15_parse_after_fail", ty, d, _bad, good] => do
+    let signed ← signedOfStr ty; let d ← denomOfStr d
+    let b := Hex.decode good
+    pure (showExI (AmtText.fromStrIn signed b d), showOptI (Spec.Decimal.specParse signed (Spec.Decimal.decimals d) b))
+  | ["c15_display", ty, a] => do
+    let signed ← signedOfStr ty; let a ← a.toInt?
+    pure (Hex.encode (AmtText.display signed a), Hex.encode (Spec.Decimal.specFormatWithDenomination .Monero a))
+  | ["c15_denom", h] =>
+    let b := Hex.decode h
+    some ((match AmtText.denomFromStr b with | .ok d => showDenom d | .error _ => "err"),
+          (match Spec.Decimal.denomOfName b with | some d => showDenom d | none => "err"))
   | _ => none
 
 end Drv
